@@ -84,7 +84,7 @@ def conds_c08(tier):
 
 def main(pid):
     tier = C.tier()
-    ev = C.Evidence(pid, "proof")
+    ev = C.Evidence(pid, "other")
     ev.assumptions = list(STUBS)
     extra = {}
     if pid == "C05":
@@ -104,6 +104,9 @@ def main(pid):
     results = xhrun.run_conditions(pid, conds)
     code = xhrun.summarize(pid, results, ev)
     cov = ev.coverage
+    cov["explanation"] = ("bounded symbolic execution of the real uberjob code: CrossHair enumerates every feasible path of the harness for the "
+                          "given shape and z3 discharges each path condition ('Confirmed over all paths'); symbolic values (times, flags) are "
+                          "unbounded, the plan shape / cut index are the stated bound. Not a proof for all plans.")
     cov["checker_cmd"] = "crosshair check --report_all --per_condition_timeout T harness_cache.<fn> (one process per condition), z3 backend"
     cov["trusted_base"] = ["CrossHair 0.0.110", "z3 4.x (crosshair's)", "CPython 3.12", "harness stubs listed in assumptions"]
     cov["bounds"] = "shapes: " + ", ".join(sorted({r["label"] for r in results}))[:1500]
